@@ -197,3 +197,7 @@ Fixpoint crash_free_s (sm : mode) (s : schema) : bool :=
             match ps with [] => true | (_, sub) :: r => crash_free_s sm sub && go r end) props
       && match items with Some it => crash_free_s sm it | None => true end
   end.
+
+(* scripted handlers of the correspondence case files *)
+Definition const_handler (name : string) (sg : hsig) (out : h_out) : handler :=
+  mkHandler name sg (fun _ _ => out).
